@@ -5,7 +5,11 @@ What is regenerated from the C AST of the current src/cmi_mempool.c on every run
     chunk_list_cnt with their locals (page rounding, objects per chunk), in 64-bit wrap-around arithmetic;
     `cmi_pagesize()` becomes the parameter `page`, `CHUNK_LIST_SIZE` arrives macro-expanded as a literal;
   * `initialize_asserts obj_sz obj_num : Bool` — the conjunction of the conditions of its cmb_assert_release lines;
-  * `chunk_list_size : Nat` — CHUNK_LIST_SIZE as the preprocessor sees it (the value handed to the model driver).
+  * `chunk_list_size : Nat` — CHUNK_LIST_SIZE as the preprocessor sees it (the value handed to the model driver);
+  * `expand_links mp`, `expand_stride mp` — from cmi_mempool_expand: the trip count of the loop that threads the objects
+    of a fresh chunk (for / while / do-while counting loops whose body is exactly `*vp = vp + stride; vp = *vp;` and that
+    are followed by `*vp = NULL`) and its stride; Props/C20 proves them equal to what the model's addChunk passes to
+    threadLoop (incr_num - 1 steps of obj_sz / 8 words) for every incr_num >= 1.
 Statements that are deliberately NOT translated (hand-modelled, tied by correspondence only): the stores to the
 pointer / tag fields `cookie`, `chunk_list` (= cmi_malloc(...)), `next_obj`.  Any other statement kind is
 Untranslatable = broken tie.
@@ -50,6 +54,155 @@ def skipped_store(s):
     return None
 
 
+# ---------------------------------------------------------------------------
+# the loop of cmi_mempool_expand that threads the objects of a fresh chunk
+# ---------------------------------------------------------------------------
+
+def _core(n):
+    while n.get("kind") in ("ParenExpr", "ImplicitCastExpr", "CStyleCastExpr") and n.get("castKind") != "ToVoid":
+        n = n["inner"][0]
+    return n
+
+
+def _ref(n):
+    n = _core(n)
+    return n["referencedDecl"]["name"] if n.get("kind") == "DeclRefExpr" else None
+
+
+def _deref(n):
+    n = _core(n)
+    return _ref(n["inner"][0]) if n.get("kind") == "UnaryOperator" and n.get("opcode") == "*" else None
+
+
+def _assign(s):
+    s = _core(s)
+    return (s["inner"][0], s["inner"][1]) if s.get("kind") == "BinaryOperator" and s.get("opcode") == "=" else None
+
+
+def _literal(n):
+    n = _core(n)
+    return int(n["value"]) if n.get("kind") == "IntegerLiteral" else None
+
+
+def _incr(n, var):
+    """'pre' / 'post' if n is ++var"""
+    n = _core(n)
+    if n.get("kind") == "UnaryOperator" and n.get("opcode") == "++" and _ref(n["inner"][0]) == var:
+        return "post" if n.get("isPostfix") else "pre"
+    return None
+
+
+def expand_loop(tr, fn):
+    """Recognise  `vp = ap; [for|while|do-while counting loop] { *vp = vp + stride; vp = *vp; }  *vp = NULL;`  in
+    cmi_mempool_expand and return (lean expr of the number of link steps, lean expr of the stride, loop form).
+    Raises Untranslatable for any other shape (the loop is then tied by correspondence only and the check says so)."""
+    U = c2lean.Untranslatable
+    body = [c for c in fn["inner"] if c.get("kind") == "CompoundStmt"][0]
+    stmts = [s for s in body["inner"] if not tr.is_assert_noop(s)]
+    env = {p["name"]: p["name"] for p in fn["inner"] if p.get("kind") == "ParmVarDecl"}
+    # chain pointer: the local of type void ** ; everything of interest comes after its declaration
+    start, vp = None, None
+    for i, s in enumerate(stmts):
+        if s.get("kind") == "DeclStmt":
+            for v in s["inner"]:
+                if v.get("kind") == "VarDecl" and c2lean.norm_type(c2lean.qt(v)) == "void **":
+                    start, vp = i, v["name"]
+    if vp is None:
+        raise U("cmi_mempool_expand: no local of type void ** (chain pointer) found")
+    locs = {}          # scalar locals declared with an initialiser: name -> init AST
+    loop, loop_i = None, None
+    for i in range(start + 1, len(stmts)):
+        s = stmts[i]
+        if s.get("kind") == "DeclStmt":
+            for v in s["inner"]:
+                init = [c for c in v.get("inner", []) if c.get("kind") != "FullComment"]
+                if v.get("kind") != "VarDecl" or not init:
+                    raise U("cmi_mempool_expand: declaration without initialiser before the chaining loop")
+                locs[v["name"]] = init[0]
+        elif s.get("kind") in ("ForStmt", "WhileStmt", "DoStmt"):
+            loop, loop_i = s, i
+            break
+        else:
+            raise U("cmi_mempool_expand: statement kind %s between the chain pointer and the chaining loop" % s.get("kind"))
+    if loop is None:
+        raise U("cmi_mempool_expand: no chaining loop found")
+    term = stmts[loop_i + 1] if loop_i + 1 < len(stmts) else None
+    a = _assign(term) if term else None
+    if not a or _deref(a[0]) != vp or _literal(a[1]) != 0:
+        raise U("cmi_mempool_expand: the chaining loop is not followed by `*%s = NULL`" % vp)
+    if len(stmts) != loop_i + 2:
+        raise U("cmi_mempool_expand: statements after the NULL terminator")
+
+    def link_body(b, extra=None):
+        """checks `*vp = vp + S; vp = *vp;` (+ optionally the counter increment); returns the AST of S"""
+        ss = [x for x in (b["inner"] if b.get("kind") == "CompoundStmt" else [b]) if not tr.is_assert_noop(x)]
+        if extra:
+            if len(ss) != 3 or not _incr(ss[2], extra):
+                raise U("chaining loop body: expected link, advance, ++%s" % extra)
+            ss = ss[:2]
+        if len(ss) != 2:
+            raise U("chaining loop body: expected exactly `*vp = vp + stride; vp = *vp;`")
+        a1, a2 = _assign(ss[0]), _assign(ss[1])
+        if not a1 or not a2 or _deref(a1[0]) != vp or _ref(a2[0]) != vp or _deref(a2[1]) != vp:
+            raise U("chaining loop body: not of the form `*vp = vp + stride; vp = *vp;`")
+        add = _core(a1[1])
+        if add.get("kind") != "BinaryOperator" or add.get("opcode") != "+" or _ref(add["inner"][0]) != vp:
+            raise U("chaining loop body: link is not `vp + stride`")
+        return add["inner"][1]
+
+    def counter_start(name):
+        if name not in locs or _literal(locs[name]) is None:
+            raise U("chaining loop counter %s does not start from a literal" % name)
+        return _literal(locs[name])
+
+    def bound(cond, lhs_ok):
+        c = _core(cond)
+        if c.get("kind") != "BinaryOperator" or c.get("opcode") != "<" or not lhs_ok(c["inner"][0]):
+            raise U("chaining loop condition is not `counter < bound`")
+        return tr.expr(c["inner"][1], env)
+
+    k = loop["kind"]
+    if k == "ForStmt":
+        init, _, cond, inc, b = loop["inner"]
+        ui = None
+        if init.get("kind") == "DeclStmt" and len(init["inner"]) == 1 and init["inner"][0].get("kind") == "VarDecl":
+            v = init["inner"][0]
+            ui = v["name"]
+            locs[ui] = [c for c in v.get("inner", []) if c.get("kind") != "FullComment"][0]
+        if ui is None or not _incr(inc, ui):
+            raise U("chaining for-loop: counter declaration / increment not recognised")
+        a0 = counter_start(ui)
+        E = bound(cond, lambda l: _ref(l) == ui)
+        stride = link_body(b)
+        count = "(%s - %d)" % (E, a0)
+    elif k == "WhileStmt":
+        cond, b = loop["inner"]
+        c = _core(cond)
+        ui = _ref(c["inner"][0]) if c.get("kind") == "BinaryOperator" else None
+        if ui is None:
+            raise U("chaining while-loop without a counter")
+        a0 = counter_start(ui)
+        E = bound(cond, lambda l: _ref(l) == ui)
+        stride = link_body(b, extra=ui)
+        count = "(%s - %d)" % (E, a0)
+    else:
+        b, cond = loop["inner"]
+        c = _core(cond)
+        lhs = c["inner"][0] if c.get("kind") == "BinaryOperator" else None
+        ui = _ref(_core(lhs)["inner"][0]) if lhs is not None and _core(lhs).get("kind") == "UnaryOperator" else None
+        mode = _incr(lhs, ui) if ui else None
+        if not mode:
+            raise U("chaining do-while-loop: condition is not `++counter < bound`")
+        a0 = counter_start(ui)
+        E = bound(cond, lambda l: _incr(l, ui) is not None)
+        stride = link_body(b)
+        # the body runs once before the first test
+        count = "(Nat.max 1 (%s - %d))" % (E, a0) if mode == "pre" else "(Nat.max 1 (%s + 1 - %d))" % (E, a0)
+    sname = _ref(stride)
+    s_ast = locs[sname] if sname in locs else stride
+    return count, tr.expr(s_ast, env), {"ForStmt": "for", "WhileStmt": "while", "DoStmt": "do-while"}[k]
+
+
 def generate(impl):
     incs = [os.path.join(vlib.REPO, "include"), os.path.join(vlib.REPO, "src"), impl["dir"]]
     path = os.path.join(vlib.REPO, "src", "cmi_mempool.c")
@@ -77,11 +230,15 @@ def generate(impl):
     fn2 = dict(fn)
     fn2["inner"] = [c for c in fn["inner"] if c.get("kind") == "ParmVarDecl"] + [dict(body, inner=kept)]
     text = tr.function(fn2, "initialize_sizes", written_params=("mp",))
+    # the chaining loop of cmi_mempool_expand
+    docs_e = c2lean.clang_ast(path, "cmi_mempool_expand", incs)
+    fn_e = c2lean.find_function(docs_e, "cmi_mempool_expand")
+    count, stride, form = expand_loop(tr, fn_e)
     cls = poolcorr.chunk_list_size(impl)
     if cls is None:
         raise c2lean.Untranslatable("CHUNK_LIST_SIZE not found by the preprocessor in src/cmi_mempool.c")
     # c2lean.ast_hash is not stable on this function (clang emits pointer-valued keys besides id); hash the translation
-    h = hashlib.sha256((text + repr(conds)).encode()).hexdigest()[:16]
+    h = hashlib.sha256((text + repr(conds) + count + stride).encode()).hexdigest()[:16]
     out = ["/- GENERATED by tools/gen_pool.py from /repo's current sources on every run. Do not edit. -/",
            "import CimbaModel.Mempool.Model", "", "namespace CimbaModel.Generated.Mempool", "open CimbaModel.Mempool", "",
            "/-- CHUNK_LIST_SIZE of src/cmi_mempool.c as the preprocessor sees it -/",
@@ -91,9 +248,15 @@ def generate(impl):
            text, "end", "",
            "/-- the conditions of the cmb_assert_release lines of cmi_mempool_initialize -/",
            "def initialize_asserts (obj_sz : Nat) (obj_num : Nat) : Bool :=\n  %s" % (" && ".join(conds) if conds else "true"), "",
+           "/-- src/cmi_mempool.c:cmi_mempool_expand: how many times the %s loop that threads a fresh chunk executes" % form,
+           "    `*vp = vp + stride; vp = *vp;` before the final `*vp = NULL` (64-bit arithmetic of the loop bound) -/",
+           "def expand_links (mp : MP) : Nat :=\n  %s" % count, "",
+           "/-- the stride of that loop in 8-byte words -/",
+           "def expand_stride (mp : MP) : Nat :=\n  %s" % stride, "",
            "end CimbaModel.Generated.Mempool"]
     info = {"file": "src/cmi_mempool.c", "function": "cmi_mempool_initialize", "translation_hash": h, "CHUNK_LIST_SIZE": cls,
-            "release_asserts": len(conds), "not_translated": sorted(skipped)}
+            "release_asserts": len(conds), "not_translated": sorted(skipped),
+            "expand_loop_form": form}
     return "\n".join(out) + "\n", info
 
 
